@@ -195,7 +195,133 @@ static int op_kalign_arr(int argc, char **argv, FILE *out)
         return 0;
 }
 
+/* readfile <path>...  -> "rc=<rc> n=<numseq> aligned=<status> biotype=<b> | namehex residues gaps | ..." (kalign_read_input on each path) */
+static int op_readfile(int argc, char **argv, FILE *out)
+{
+        if(argc < 1) return 1;
+        struct msa *msa = NULL;
+        int rc = OK;
+        for(int i = 0; i < argc && rc == OK; i++){ rc = kalign_read_input(argv[i], &msa, 1); }
+        if(rc != OK || !msa){ fprintf(out, "rc=%d", rc != OK ? 1 : 2); if(msa) kalign_free_msa(msa); return 0; }
+        fprintf(out, "rc=0 n=%d aligned=%d biotype=%d", msa->numseq, msa->aligned, msa->biotype);
+        for(int i = 0; i < msa->numseq; i++){
+                struct msa_seq *s = msa->sequences[i];
+                fputs(" | ", out);
+                kv_print_hex(out, (unsigned char*)s->name, (int)strlen(s->name));
+                fprintf(out, " %s ", s->len ? s->seq : ".");
+                kv_print_ints(out, s->gaps, s->len + 1);
+        }
+        kalign_free_msa(msa);
+        return 0;
+}
+
+/* writealn <outfile> <fmt> <biotype> <namehex>:<row> ...   rows = finished rows (letters and '-'), all of one length.
+   builds the msa a finished kalign_run leaves behind and calls kalign_write_msa */
+static int op_writealn(int argc, char **argv, FILE *out)
+{
+        if(argc < 4) return 1;
+        int n = argc - 3;
+        int biotype = atoi(argv[2]);
+        struct msa *msa = NULL;
+        if(alloc_msa(&msa, n) != OK) return 1;
+        msa->quiet = 1;
+        int alnlen = -1, bad = 0;
+        for(int i = 0; i < n && !bad; i++){
+                char *c = strchr(argv[3+i], ':');
+                if(!c){ bad = 1; break; }
+                *c = 0;
+                unsigned char *nm; int nl;
+                if(kv_unhex(argv[3+i], &nm, &nl)){ bad = 1; break; }
+                const char *row = c + 1;
+                int L = (int)strlen(row);
+                if(alnlen < 0) alnlen = L; else if(L != alnlen){ bad = 1; free(nm); break; }
+                struct msa_seq *s = msa->sequences[i];
+                free(s->name); s->name = malloc(nl + 1 > 256 ? nl + 1 : 256); memcpy(s->name, nm, nl); s->name[nl] = 0; free(nm);
+                free(s->seq); s->seq = malloc(L + 1); memcpy(s->seq, row, L + 1);
+                int res = 0; for(int j = 0; j < L; j++) if(row[j] != '-') res++;
+                s->len = res; s->rank = i;
+        }
+        if(!bad){
+                msa->numseq = n;
+                msa->alnlen = alnlen;
+                msa->aligned = ALN_STATUS_FINAL;
+                msa->biotype = biotype;
+                msa->L = biotype == ALN_BIOTYPE_PROTEIN ? 23 : 5;
+                int rc = kalign_write_msa(msa, argv[0], argv[1]);
+                fprintf(out, "rc=%d", rc);
+        }
+        msa->numseq = n;
+        kalign_free_msa(msa);
+        return bad;
+}
+
+/* ---- handle-based API histories (C16): several msa objects alive at once ---- */
+#define KV_MAXH 64
+static struct msa *handles[KV_MAXH];
+
+static int hidx(const char *s){ int h = atoi(s); return (h >= 0 && h < KV_MAXH) ? h : -1; }
+
+/* h_read <h> <file>...   (kalign_read_input accumulating into handle h) */
+static int op_h_read(int argc, char **argv, FILE *out)
+{
+        if(argc < 2) return 1;
+        int h = hidx(argv[0]); if(h < 0) return 1;
+        int rc = OK;
+        for(int i = 1; i < argc && rc == OK; i++){ rc = kalign_read_input(argv[i], &handles[h], 1); }
+        if(rc != OK && handles[h]){ kalign_free_msa(handles[h]); handles[h] = NULL; }
+        if(!handles[h]){ fprintf(out, "rc=%d null", rc); return 0; }
+        fprintf(out, "rc=%d n=%d aligned=%d biotype=%d", rc, handles[h]->numseq, handles[h]->aligned, handles[h]->biotype);
+        return 0;
+}
+/* h_run <h> <type> <gpo> <gpe> <tgpe> <nthreads> */
+static int op_h_run(int argc, char **argv, FILE *out)
+{
+        if(argc != 6) return 1;
+        int h = hidx(argv[0]); if(h < 0) return 1;
+        if(!handles[h]){ fputs("null", out); return 0; }
+        int rc = kalign_run(handles[h], atoi(argv[5]), atoi(argv[1]), parse_pen(argv[2]), parse_pen(argv[3]), parse_pen(argv[4]));
+        fprintf(out, "rc=%d alnlen=%d", rc, rc == OK ? handles[h]->alnlen : -1);
+        return 0;
+}
+/* h_write <h> <outfile> <fmt> */
+static int op_h_write(int argc, char **argv, FILE *out)
+{
+        if(argc != 3) return 1;
+        int h = hidx(argv[0]); if(h < 0) return 1;
+        if(!handles[h]){ fputs("null", out); return 0; }
+        int rc = kalign_write_msa(handles[h], argv[1], argv[2]);
+        fprintf(out, "rc=%d", rc);
+        return 0;
+}
+/* h_compare <h1> <h2> : kalign_msa_compare(reference h1, test h2) -> rc + score bits */
+static int op_h_compare(int argc, char **argv, FILE *out)
+{
+        if(argc != 2) return 1;
+        int a = hidx(argv[0]), b = hidx(argv[1]); if(a < 0 || b < 0) return 1;
+        if(!handles[a] || !handles[b]){ fputs("null", out); return 0; }
+        float score = -1.0f;
+        int rc = kalign_msa_compare(handles[a], handles[b], &score);
+        union { float f; uint32_t u; } x; x.f = score;
+        fprintf(out, "rc=%d score=%08x", rc, rc == OK ? x.u : 0u);
+        return 0;
+}
+static int op_h_free(int argc, char **argv, FILE *out)
+{
+        if(argc != 1) return 1;
+        int h = hidx(argv[0]); if(h < 0) return 1;
+        if(handles[h]){ kalign_free_msa(handles[h]); handles[h] = NULL; }
+        fputs("ok", out);
+        return 0;
+}
+
 struct kv_op kv_ops_sys[] = {
+        {"h_read", op_h_read},
+        {"h_run", op_h_run},
+        {"h_write", op_h_write},
+        {"h_compare", op_h_compare},
+        {"h_free", op_h_free},
+        {"readfile", op_readfile},
+        {"writealn", op_writealn},
         {"run", op_run},
         {"kalign_arr", op_kalign_arr},
         {NULL, NULL}
